@@ -34,6 +34,9 @@ def build(m, cfg):
         md = m.html
     else:
         md = m.create_markdown(escape=cfg.get("escape", True), hard_wrap=cfg.get("hard_wrap", False), renderer=renderer, plugins=plugins)
+        if cfg.get("toc_hook"):
+            from mistune.toc import add_toc_hook
+            add_toc_hook(md, 1, 6)
     _cache[key] = md
     return md
 
